@@ -387,6 +387,8 @@ class _SutReferenceNormalizer(cst.CSTTransformer):
         self._module_alias = module_alias
         self._bindings: dict[str, _SutBinding] = {}
         self._replacements: dict[int, cst.BaseExpression] = {}
+        # ``Name`` nodes that are member/parameter names rather than references.
+        self._not_references: set[int] = set()
 
     def _resolve(self, chain: list[str]) -> list[str] | None:
         root, *rest = chain
@@ -466,6 +468,17 @@ class _SutReferenceNormalizer(cst.CSTTransformer):
             if replacement is not None:
                 self._replacements[id(node)] = _build_chain(replacement)
             return False
+        # Not a pure chain (e.g. ``f(x).member``): only the receiver can hold
+        # references, the member name itself is never one.
+        self._not_references.add(id(node.attr))
+        return True
+
+    def visit_Arg(self, node: cst.Arg) -> bool:  # noqa: N802
+        # A call argument's ``keyword`` is a parameter name, not a reference: a
+        # parameter sharing its name with an imported SUT member (``f(limit=3)``
+        # next to ``from sut import limit``) must stay untouched.
+        if node.keyword is not None:
+            self._not_references.add(id(node.keyword))
         return True
 
     def leave_Attribute(  # noqa: N802
@@ -474,6 +487,9 @@ class _SutReferenceNormalizer(cst.CSTTransformer):
         return self._replacements.pop(id(original_node), updated_node)
 
     def visit_Name(self, node: cst.Name) -> bool:  # noqa: N802
+        if id(node) in self._not_references:
+            self._not_references.discard(id(node))
+            return True
         replacement = self._resolve([node.value])
         if replacement is not None:
             self._replacements[id(node)] = _build_chain(replacement)
